@@ -174,7 +174,9 @@ def gen(rng, tier):
         cimp = rng.choice([i for i in imports])
         stmts.append({'k': 'ref', 'imp': cimp, 'param': rng.choice(['x', 'y']),
                       'timp': imp2, 'target': target,
-                      'evaluate': rng.random() < 0.5})
+                      'evaluate': rng.random() < 0.5,
+                      # some references carry a scope of their own
+                      'rscope': rng.choice(['', '', 'rs', 'rs/deep'])})
       else:
         stmts.append({'k': 'bind', 'imp': imp, 'path': path,
                       'param': rng.choice(PARAMS[path]), 'val': uid[0]})
@@ -240,9 +242,10 @@ def file_text(f, files):
         lines.append('%s.%s = %d' % (spell(s['imp'], s['path']), s['param'],
                                      s['val']))
       else:
-        lines.append('%s.%s = @%s%s' % (spell(s['imp'], 'consume'), s['param'],
-                                        spell(s['timp'], s['target']),
-                                        '()' if s['evaluate'] else ''))
+        lines.append('%s.%s = @%s%s%s' % (
+            spell(s['imp'], 'consume'), s['param'],
+            (s['rscope'] + '/') if s.get('rscope') else '',
+            spell(s['timp'], s['target']), '()' if s['evaluate'] else ''))
   return '\n'.join(lines) + '\n'
 
 
@@ -316,8 +319,12 @@ def run(case):
       viol.append({'oracle': oracle, 'sig': [ID, oracle] + list(disc),
                    'msg': msg})
 
+  received_scope = {}
+
   def hook(module, path, named):
     received[(module, path)] = dict(named)
+    received_scope.setdefault((module, path), []).append(
+        gin.current_scope_str())
     return ('result', module, path)
 
   mods = plant(hook)
@@ -352,7 +359,7 @@ def run(case):
     else:
       ckey = (s['imp']['module'], 'consume')
       refs[(ckey, s['param'])] = (s['timp']['module'], s['target'],
-                                  s['evaluate'])
+                                  s['evaluate'], s.get('rscope', ''))
       spellings.setdefault((s['timp']['module'], s['target']), set()).add(
           spell(s['timp'], s['target']))
       if s['target'] in ('K0', 'K1'):
@@ -438,9 +445,10 @@ def run(case):
           '%s: %s.%s (spelled %s) received %r, bound values %r\n%s' %
           (label, module, path, sorted(spellings.get((module, path), ())),
            got, params, '\n---\n'.join(file_text(f, files) for f in files)))
-    for (ckey, param), (tm, target, ev) in sorted(refs.items()):
+    for (ckey, param), (tm, target, ev, rscope) in sorted(refs.items()):
       consume = lookup(mods, ckey[0], 'consume')
       received.clear()
+      received_scope.clear()
       try:
         gin.get_configurable(consume)()
       except Exception as e:  # pylint: disable=broad-except
@@ -470,6 +478,7 @@ def run(case):
             '%s: @%s delivered %r' % (label, target, got))
           continue
         received.clear()
+        received_scope.clear()
         try:
           out = got()
         except Exception as e:  # pylint: disable=broad-except
@@ -481,6 +490,13 @@ def run(case):
           v('C19.reference_works', [label, 'unevaluated-class'],
             '%s: delivered @%s builds %r' % (label, target, out))
           continue
+      # (one consumer call may evaluate several references to the target)
+      if rscope not in received_scope.get((tm, target), [rscope]):
+        v('C19.reference_works', [label, 'reference-scope'],
+          '%s: the reference @%s%s%s ran its target under scope %r\n%s' %
+          (label, (rscope + '/') if rscope else '', target,
+           '()' if ev else '', received_scope.get((tm, target)),
+           '\n---\n'.join(file_text(f, files) for f in files)))
       got_t = received.get((tm, target), {})
       bad = {p: (got_t.get(p), val) for p, val in want_params.items()
              if got_t.get(p) != val}
@@ -579,14 +595,19 @@ def run(case):
       text = 'from __gin__ import no_such_feature\n'
       want = SyntaxError
     exc3 = None
+    # (these are errors whatever skip_unknown says: none of them is an unknown
+    # configurable or a missing module)
+    su = [False, True, ['nothing'], False][(len(kind) + len(files)) % 4]
+    if kind in ('foreign_symbol', 'foreign_symbol_includee', 'missing_attr'):
+      su = False   # skip_unknown legitimately turns these into skipped names
     try:
-      gin.parse_config(text)
+      gin.parse_config(text, skip_unknown=su)
     except Exception as e:  # pylint: disable=broad-except
       exc3 = e
-    log.add('bad', kind, type(exc3).__name__ if exc3 else None)
+    log.add('bad', kind, repr(su), type(exc3).__name__ if exc3 else None)
     if exc3 is None:
-      v('C19.bad_name_rejected', [kind],
-        'text\n%s\nparsed without error' % text)
+      v('C19.bad_name_rejected', [kind] + (['skip_unknown'] if su else []),
+        'text\n%s\nparsed without error (skip_unknown=%r)' % (text, su))
     elif not isinstance(exc3, want):
       v('C19.bad_name_error_class', [kind, type(exc3).__name__],
         'text\n%s\nraised %s (%s), expected %s' %
